@@ -143,6 +143,24 @@ def check_ref_from_ptr(ctx, F, hty, size_field_off, rule="A2"):
             rs = next(iter(regions))
             good = is_region(rs) and c14.is_ref_from_slice_of(ex, hty, rs, F)
             how = "ref_from_slice expanded in place over %s" % G.show(rs)[:120]
+    if not good:
+        # the first verdict of C14's chain anticipated: `if raw size < size_of::<H>() { return Err(ShorterThanHeader) }` before the
+        # region is formed (the same error for the same inputs as the chain's first test over a region of that length), then the
+        # plain form
+        ex = CH.exits(A)
+        tails = [e for e in ex if N(e.val)[0] == "call" and N(e.val)[1] == rfs and len(N(e.val)[2]) == 1 and is_region(N(e.val)[2][0])]
+        early = [e for e in ex if e not in tails]
+        hs = F.size_of(hty)
+        if len(tails) == 1 and early and fidx:
+            raw = ("zext", fld(deref(arg(1)), fidx[0]), "u32", "usize")
+            want = ("cmp", "Lt", raw, ("c", hs))
+
+            def same(f):
+                f = N(f)
+                return f[0] == "cmp" and G.entails([f], want) is not None and G.entails([want], f) is not None
+            if all(e.kind == "Err" and e.variant == "ShorterThanHeader" and len(e.own) == 1 and same(e.own[0]) for e in early):
+                good = True
+                how = "Err(ShorterThanHeader) when the raw size < %d, else ref_from_slice over [ptr, ptr + raw size)" % hs
     return ctx.check(good, rule, "ref_from_ptr<%s>" % hty.split("::")[-1],
                      "ref_from_ptr views exactly [ptr, ptr + zext(raw declared size)) and hands it to ref_from_slice (errors of C14's chain)",
                      A.site(), how=how, why=how)
